@@ -459,6 +459,21 @@ func (E *Engine) VerifyFunc(p *packages.Package, pc *PkgContracts, c *FuncContra
 			res.Obls = append(res.Obls, o)
 		}
 	}
+	if c.Recovers && litOrd == 0 {
+		ok, why := recoversRule(p, decl)
+		o := &Obligation{Name: f.key + "/recovers", Kind: "recovers", Fn: f.key, Pkg: p.PkgPath, Props: c.Props,
+			Text: "recovers: every panic raised while the body runs is caught by a deferred recover of this function",
+			Src:  fmt.Sprintf("%s:%d", shortPath(c.File), c.Line)}
+		if ok {
+			o.Decided = "unsat"
+			o.Output = "recover rule: the body starts with a deferred function literal that calls recover() and stores the error result; the rest of the body starts no goroutine and hands no function literal to a callee"
+		} else {
+			o.Decided = "sat"
+			o.Output = "recover rule: " + why
+		}
+		f.note("runtime fatal errors (concurrent map access, stack exhaustion, out of memory) are not recoverable and outside the recover rule")
+		res.Obls = append(res.Obls, o)
+	}
 	// tracked calls
 	allText := []string{}
 	for _, cl := range c.Ensures {
@@ -785,4 +800,88 @@ func contains(xs []string, x string) bool {
 		}
 	}
 	return false
+}
+
+// recoversRule decides the `recovers` obligation structurally, over the real body:
+//  1. before any other executable statement, the body defers a function literal that calls the builtin recover()
+//     and assigns to a named result of the function;
+//  2. the rest of the body contains no `go` statement, and passes no function literal to a callee and creates none
+//     that escapes (a literal may only be called directly or deferred): work handed to another goroutine is not
+//     protected by this function's recover.
+func recoversRule(p *packages.Package, decl *ast.FuncDecl) (bool, string) {
+	info := p.TypesInfo
+	named := map[types.Object]bool{}
+	if decl.Type.Results != nil {
+		for _, fl := range decl.Type.Results.List {
+			for _, nm := range fl.Names {
+				if o := info.Defs[nm]; o != nil && nm.Name != "_" {
+					named[o] = true
+				}
+			}
+		}
+	}
+	var guard *ast.FuncLit
+	for _, st := range decl.Body.List {
+		if ds, ok := st.(*ast.DeclStmt); ok {
+			_ = ds
+			continue
+		}
+		d, ok := st.(*ast.DeferStmt)
+		if !ok {
+			break
+		}
+		lit, ok := ast.Unparen(d.Call.Fun).(*ast.FuncLit)
+		if !ok || len(d.Call.Args) != 0 {
+			continue
+		}
+		callsRecover, assigns := false, false
+		ast.Inspect(lit.Body, func(n ast.Node) bool {
+			switch x := n.(type) {
+			case *ast.CallExpr:
+				if id, ok := ast.Unparen(x.Fun).(*ast.Ident); ok && id.Name == "recover" {
+					if _, isB := info.ObjectOf(id).(*types.Builtin); isB {
+						callsRecover = true
+					}
+				}
+			case *ast.AssignStmt:
+				for _, l := range x.Lhs {
+					if id, ok := ast.Unparen(l).(*ast.Ident); ok && named[info.ObjectOf(id)] {
+						assigns = true
+					}
+				}
+			}
+			return true
+		})
+		if callsRecover && assigns {
+			guard = lit
+			break
+		}
+	}
+	if guard == nil {
+		return false, "the body does not start with `defer func() { if r := recover(); r != nil { <named result> = ... } }()`"
+	}
+	why := ""
+	ast.Inspect(decl.Body, func(n ast.Node) bool {
+		if why != "" {
+			return false
+		}
+		if n == ast.Node(guard) {
+			return false
+		}
+		switch x := n.(type) {
+		case *ast.GoStmt:
+			why = "a goroutine is started at " + posStr(p.Fset, x.Pos()) + ": panics there are not caught by this function's recover"
+		case *ast.CallExpr:
+			for _, a := range x.Args {
+				if _, isLit := ast.Unparen(a).(*ast.FuncLit); isLit {
+					why = "a function literal is handed to " + exprStr(x.Fun) + " at " + posStr(p.Fset, x.Pos()) + ": it may run on another goroutine, outside this function's recover"
+				}
+			}
+		}
+		return true
+	})
+	if why != "" {
+		return false, why
+	}
+	return true, ""
 }
